@@ -136,7 +136,7 @@ MUTANTS = [
      "    let resolvee_vtable_path = resolvee_path\n        .parent()\n        .and_then(|p| if p.len() >= 3 { p.parent() } else { Some(p) })?\n        .join(")]),
   ("c14-generated-file-not-rewritten", ["C14"], [("src/backends/rust.rs",
      '    std::fs::write(&path, output).context("failed to write file")?;',
-     '    // Leave files alone that a previous run has generated already\n    let already_generated = std::fs::read_to_string(&path)\n        .map(|old| old.starts_with("#![allow(dead_code") && old.lines().count() == output.lines().count())\n        .unwrap_or(false);\n    if !already_generated {\n        std::fs::write(&path, output).context("failed to write file")?;\n    }')]),
+     '    // Leave files alone that a previous run has generated already\n    let already_generated = std::fs::read_to_string(&path)\n        .map(|old| old.starts_with("#![allow(") && old.lines().count() == output.lines().count())\n        .unwrap_or(false);\n    if !already_generated {\n        std::fs::write(&path, output).context("failed to write file")?;\n    }')]),
   ("c19-lookup-by-short-name-over-all-modules", ["C19"], [("src/semantic/type_registry.rs",
      """                    .map(|ip| ip.join(name.into()))
                     .find(|ip| self.is_known(ip))
@@ -190,8 +190,12 @@ def main():
             "every impl block": ["C10"], "independently of resolution order": ["C09"],
             "has made progress": ["C09"],
         }
+        # Reverting these alone no longer breaks anything: a later repair covers the same input.
+        masked = {"86ff219": "extern align(0) is now also rejected when embedded, by the lcm repair 79fa87e"}
         for line in log:
             h, subject = line.split(" ", 1)
+            if h in masked:
+                continue
             expect = ["C12"]
             for k, v in expect_for.items():
                 if k in subject:
